@@ -108,7 +108,13 @@ func (mod *Module) findIdentityBase(baseStr string) (*resolvedIdentity, []error)
 	case "", rootPrefix:
 		// This is a local identity which is defined within the current
 		// module
-		keyName := fmt.Sprintf("%s:%s", module(mod).Name, baseName)
+		owner := module(mod)
+		if owner == nil {
+			// mod is a submodule that belongs to a module which has not been loaded.
+			errs = append(errs, fmt.Errorf("%s: can't resolve the local base %s: module %s is not loaded", source, baseStr, mod.BelongsTo.Name))
+			break
+		}
+		keyName := fmt.Sprintf("%s:%s", owner.Name, baseName)
 		base, ok = typeDict.identities.dict[keyName]
 		if !ok {
 			errs = append(errs, fmt.Errorf("%s: can't resolve the local base %s as %s", source, baseStr, keyName))
@@ -153,6 +159,11 @@ func (ms *Modules) resolveIdentities() []error {
 		// We could just do a range on ms.SubModules, but that
 		// might process a submodule that no module included.
 		for _, m := range includeClosure(mod, nil) {
+			if module(m) == nil {
+				// An included submodule that belongs to a module which has not been loaded.
+				errs = append(errs, fmt.Errorf("%s: no such module: %s, to which submodule %s belongs", Source(m.BelongsTo), m.BelongsTo.Name, m.Name))
+				continue
+			}
 			for _, i := range m.Identities() {
 				keyName, r := newResolvedIdentity(m, i)
 				ms.typeDict.identities.dict[keyName] = *r
